@@ -90,6 +90,10 @@ __CPROVER_assigns(verif_exc, g_dr, g_dg, g_db, g_da);
 #define OLD_DB __CPROVER_old(g_db)
 #define OLD_DA __CPROVER_old(g_da)
 #define D4_OLD D4(OLD_DR, OLD_DG, OLD_DB, OLD_DA)
+#define C07_MAX_T(T, a, b) ((T)(a) > (T)(b) ? (T)(a) : (T)(b))      /* std::max<T> / std::min<T> on side-effect-free operands */
+#define C07_MIN_T(T, a, b) ((T)(a) < (T)(b) ? (T)(a) : (T)(b))
+#define C07_MAX(a, b) ((a) > (b) ? (a) : (b))
+#define C07_MIN(a, b) ((a) < (b) ? (a) : (b))
 #define D_ASSIGNS verif_exc, g_dr, g_dg, g_db, g_da
 #define CLAMP_GHOSTS g_cw, g_ch, g_mx0, g_mx1, g_mx2, g_mx3, g_mx4, g_my0, g_my1, g_my2, g_my3, g_my4
 
